@@ -459,6 +459,7 @@ func (e *Enc) encodeInstr(in ssa.Instruction) {
 		emptyHas := mk2(ArraySort(ks, SBool), fmt.Sprintf("((as const (Array %s Bool)) false)", ks))
 		e.heapSet(e.cur, hk, e.define("H_mh", Store(e.heapGet(e.cur, hk), r, emptyHas)))
 		e.bind(x, r)
+		e.mapAllocs = append(e.mapAllocs, mapAllocRec{val: x, ref: r, key: mk, block: e.curBlock})
 	case *ssa.MakeSlice:
 		ln := e.termOf(x.Len)
 		cp := e.termOf(x.Cap)
